@@ -956,7 +956,7 @@ def harvestBody (rec : Str → List Str) (s : Str) : List Str :=
     match (stripPrefix s kwResult).bind stripGt with
     | some i => match firstCommaSplit i with
       | some (a, b) => rec a ++ rec b
-      | none => []
+      | none => rec i          -- one-argument alias `Result<T>` (fix dd2e4b8)
     | none => []
   else if startsWith s kwOption then
     match (stripPrefix s kwOption).bind stripGt with
@@ -1025,7 +1025,7 @@ theorem hb_res2 (a b : Str) (hc : ',' ∉ a) (ea : Edge a) (eb : Edge b) :
     rw [List.append_assoc]; exact startsWith_append _ _
   simp only [harvestBody, h1, if_true, strip_wrap, firstCommaSplit_ok a b hc ea eb]
 
-theorem hb_res1 (a : Str) (hc : ',' ∉ a) : harvestBody rec (kwResult ++ a ++ ['>']) = [] := by
+theorem hb_res1 (a : Str) (hc : ',' ∉ a) : harvestBody rec (kwResult ++ a ++ ['>']) = rec a := by
   have h1 : startsWith (kwResult ++ a ++ ['>']) kwResult = true := by
     rw [List.append_assoc]; exact startsWith_append _ _
   simp only [harvestBody, h1, if_true, strip_wrap, firstCommaSplit_none a hc]
@@ -1158,7 +1158,7 @@ def hSpec : RTy → List Str
   | .named n => [n]
   | .opt t | .vec t | .hset t | .bset t | .ref t => hSpec t
   | .hmap k v | .bmap k v => hSpec k ++ hSpec v
-  | .res1 _ => []
+  | .res1 t => hSpec t
   | .res2 t e => hSpec t ++ hSpec e
   | .tup t ts => hSpec t ++ hSpecs ts
 def hSpecs : RTyList → List Str
@@ -1176,7 +1176,7 @@ def HarvestSafe : RTy → Prop
   | .opt t | .vec t | .hset t | .bset t => HarvestSafe t
   | .ref t => HarvestSafe t ∧ (str t).head? ≠ some '&'
   | .hmap k v | .bmap k v => ',' ∉ str k ∧ HarvestSafe k ∧ HarvestSafe v
-  | .res1 t => ',' ∉ str t
+  | .res1 t => ',' ∉ str t ∧ HarvestSafe t
   | .res2 t e => ',' ∉ str t ∧ HarvestSafe t ∧ HarvestSafe e
   | .tup t ts => ',' ∉ str t ∧ HarvestSafe t ∧ HarvestSafes ts
 def HarvestSafes : RTyList → Prop
@@ -1220,10 +1220,10 @@ theorem H1 : ∀ (r : RTy) (fuel : Nat), WF r → HarvestSafe r → size r ≤ f
     have g := good_str (.bset t) h
     simp only [harvest, trim_id g.edge]
     rw [str, hb_bset, H1 t f h hh (by simp [size] at hs; omega)]; rfl
-  | .res1 t, f+1, h, hh, _ => by
+  | .res1 t, f+1, h, hh, hs => by
     have g := good_str (.res1 t) h
     simp only [harvest, trim_id g.edge]
-    rw [str, hb_res1 _ _ hh]; rfl
+    rw [str, hb_res1 _ _ hh.1, H1 t f h hh.2 (by simp [size] at hs; omega)]; rfl
   | .res2 t e, f+1, h, hh, hs => by
     have g := good_str (.res2 t e) h
     simp only [harvest, trim_id g.edge]
@@ -1290,8 +1290,8 @@ theorem commaFreeH_strs : ∀ (ts : RTyList), HarvestSafes ts → ∀ p ∈ strs
 end
 
 
-/-- K07d: the one-argument `Result<T>` alias is not harvested at all -/
-theorem K07d_witness : harvest 50 "Result<User>".toList = [] := by decide +kernel
+/-- K07d (fixed by dd2e4b8): the one-argument `Result<T>` alias is harvested -/
+theorem K07d_fixed_witness : harvest 50 "Result<User>".toList = ["User".toList] := by decide +kernel
 /-- K07b: a comma-bearing ok-type yields junk names -/
 theorem K07b_witness : harvest 50 "Result<HashMap<String, Foo>, String>".toList = ["Foo>, String".toList] := by
   decide +kernel
